@@ -58,6 +58,7 @@ Inductive gprog :=
 | PRaise (tid : N) (e : exn)                   (* `raise`: the template Gen/Templates.v numbers tid *)
 | PIf (c : gcond) (th el : gprog)
 | PLet (c : gcond) (a b : gval) (k : gprog)    (* a new local := a if c else b *)
+| PTry (a : gval) (x : exn) (h k : gprog)      (* try: new local := a  except x: h   (h ends in a raise); then k *)
 | PUnknown.                                    (* a statement the translator does not recognise *)
 
 (* ------------------------------------------------------------------ semantics *)
@@ -72,12 +73,26 @@ Definition name_of (v : pyval) : res pyval :=
 
 Definition two_1024 : Z := 2 ^ 1024.
 
+(* float(z) for an int beyond 2^53: round to nearest, ties to even, on 53 significant bits; the result
+   is an integer again (a multiple of a power of two) *)
+Definition round_int (z : Z) : Z :=
+  (let a := Z.abs z in
+   let n := Z.log2 a in
+   if n <? 53 then z
+   else let sh := n - 52 in
+        let q := Z.shiftr a sh in
+        let r := a - Z.shiftl q sh in
+        let half := Z.shiftl 1 (sh - 1) in
+        let q' := if (half <? r) || ((r =? half) && Z.odd q) then q + 1 else q in
+        Z.sgn z * Z.shiftl q' sh)%Z.
+
 Definition to_float (v : pyval) : res pyval :=
   match v with
   | PNum (NInt z) =>
       if float_exact z then Ok (PNum (int_to_flt z))
-      else if (Z.abs z <? two_1024)%Z then Raise Unmodelled      (* rounds: not modelled *)
-      else Raise OverflowError
+      else let r := round_int z in
+           if (Z.abs r <? two_1024)%Z then Ok (PNum (int_to_flt r))
+           else Raise OverflowError                               (* int too large to convert to float *)
   | PBool b => Ok (PNum (int_to_flt (if b then 1 else 0)))
   | PNum (NFlt _ _) => Ok v
   | PNum (NDec _ _) => Raise Unmodelled
@@ -195,6 +210,11 @@ Section Run.
                   | Raise e => Bare e
                   end
         end
+    | PTry a x h k =>
+        match eval_val vals a with
+        | Ok v => run (vals ++ [v]) k
+        | Raise e => if exn_eqb e x then run vals h else Bare e
+        end
     | PUnknown => Bare Unmodelled
     end.
 End Run.
@@ -205,6 +225,7 @@ Fixpoint sites (p : gprog) : list (N * exn) :=
   | PRaise tid e => [(tid, e)]
   | PIf _ th el => sites th ++ sites el
   | PLet _ _ _ k => sites k
+  | PTry _ _ h k => sites h ++ sites k
   | PDone _ | PUnknown => []
   end.
 
@@ -485,6 +506,18 @@ Fixpoint csafe (env : aenv) (c : gcond) : bool :=
 Definition branch_safe (env : aenv) (e : gval) : bool := bottom env || vsafe env e.
 Definition branch_ty (env : aenv) (e : gval) : absv := if bottom env then Some [] else aty env e.
 
+(* float() of c raises nothing, or OverflowError only *)
+Definition float_or_overflow (c : acls) : bool :=
+  floatable c || match c with AK K_int | ANonZeroInt => true | _ => false end.
+
+(* evaluating a can raise x and nothing else *)
+Definition tsafe (env : aenv) (a : gval) (x : exn) : bool :=
+  vsafe env a ||
+  match a, x with
+  | GToFloat e1, OverflowError => vsafe env e1 && all_of float_or_overflow (aty env e1)
+  | _, _ => false
+  end.
+
 Fixpoint gsafe (env : aenv) (p : gprog) : bool :=
   bottom env ||
   match p with
@@ -495,6 +528,9 @@ Fixpoint gsafe (env : aenv) (p : gprog) : bool :=
       csafe env c && branch_safe (refine env c true) a && branch_safe (refine env c false) b &&
       gsafe {| a_vars := a_vars env ++ [absv_join (branch_ty (refine env c true) a) (branch_ty (refine env c false) b)];
                a_attrs := a_attrs env |} k
+  | PTry a x h k =>
+      tsafe env a x && gsafe env h &&
+      gsafe {| a_vars := a_vars env ++ [aty env a]; a_attrs := a_attrs env |} k
   | PUnknown => false
   end.
 
